@@ -248,6 +248,19 @@ class GArr(SArr):
     def __rmatmul__(self, o):
         return _garr(o).__matmul__(self)
 
+    # --- memory layout is not modelled: a flattening whose result depends on it fails closed
+    #     (seeded change C06e: `np.asarray(F).ravel(order="K")` transposes a Fortran-ordered F)
+    def ravel(self, order="C"):
+        if order != "C":
+            raise TranslatorUnsupported(f"ndarray.ravel(order={order!r}): the result depends on the memory layout of "
+                                        "the caller's array, which symbolic arrays do not have")
+        return _np.ndarray.ravel(self)
+
+    def flatten(self, order="C"):
+        if order != "C":
+            raise TranslatorUnsupported(f"ndarray.flatten(order={order!r}): layout-dependent flattening is not modelled")
+        return _np.ndarray.flatten(self)
+
     def max(self, *a, **k):
         raise TranslatorUnsupported("ndarray.max of a symbolic array")
 
@@ -349,6 +362,15 @@ class GlueProxy(ProxyNumpy):
 
     def zeros(self, shape, dtype=None):
         return super().zeros(shape, dtype).view(GArr)
+
+    def asarray(self, x, dtype=None):
+        """np.asarray does NOT copy an ndarray that already has the requested dtype: the result IS the caller's
+        array, an in-place operation on it writes into the caller's data (seeded change C05e).  The shared proxy's
+        `asarray` copies; here the same object comes back, so that such a write is seen by the argument-mutation
+        check of the tracer."""
+        if isinstance(x, _np.ndarray):
+            return x if isinstance(x, GArr) else x.view(GArr)
+        return super().array(x, dtype).view(GArr)
 
     def full(self, shape, fill_value, dtype=None):
         a = _np.empty(self._shape(shape), dtype=object).view(GArr)
